@@ -29,7 +29,7 @@
    (decidable exclusion); C17_refuted shows that the exclusion is necessary. *)
 From Coq Require Import ZArith List Bool Lia.
 From Logr Require Import Gen.LoggerConsts Model.Formats Model.Logger.
-From Logr Require Import Proofs.LoggerData Proofs.LoggerInv Proofs.LoggerRun Proofs.FormatsProofs.
+From Logr Require Import Proofs.LoggerData Proofs.LoggerInv Proofs.LoggerRun Proofs.LoggerWindow Proofs.FormatsProofs.
 Import ListNotations.
 Open Scope Z_scope.
 
@@ -126,6 +126,16 @@ Proof.
   split; [exact A|]. intros j d Hj Hrec. exact (proj2 (B j d Hj) Hrec).
 Qed.
 
+(* a schedule-level sufficient condition for the exclusion: sequential hand-off, i.e. no recorder step is scheduled
+   while the writer is between write_to_disk.clear() and write_finished.set() *)
+Theorem C17_sequential_handoff : forall cfgs prog sched fuel,
+  window_free_from fuel (init cfgs prog) sched = true ->
+  g_stale (run_from fuel (init cfgs prog) sched) = false.
+Proof.
+  intros cfgs prog sched fuel H.
+  apply window_free_not_stale; [apply Inv_init|reflexivity|intros X; discriminate X|exact H].
+Qed.
+
 (* the exclusion is satisfiable by a non-trivial history: two data sets (quicklogger with 30 s subdivision, json
    selecting two types), pause/resume, three timed flushes, a subdivision, two recordings on the same collection, the
    writer interleaved with the recorder (schedule W R R W R R ...); 9 messages offered, 7 recorded *)
@@ -140,9 +150,19 @@ Definition ex_sched : list tid := rep 60 [W; R; R].
 Example C17_partial_nonvacuous :
   let s := run ex_cfgs ex_prog ex_sched in
   g_stale s = false /\ finished s = true /\ s_rec s = false /\
+  window_free_from (fuel_for ex_cfgs ex_prog ex_sched) (init ex_cfgs ex_prog) ex_sched = false /\
   map (fun d => ids (written d)) (s_ds s) =
     [[(1, 1); (1, 2); (1, 3); (1, 5); (1, 6); (2, 8); (2, 9)]; [(1, 2); (1, 5); (1, 6); (2, 8)]] /\
   map (fun d => length (d_files d)) (s_ds s) = [4%nat; 2%nat].
+Proof. vm_compute. repeat split; reflexivity. Qed.
+
+(* (in ex_sched the recorder does step inside the writer's window - harmlessly; the tight exclusion g_stale admits it,
+   the schedule-level condition does not.)  A writer-first schedule is a sequential hand-off: *)
+Example C17_sequential_nonvacuous :
+  let sched := rep 200 [W] in
+  window_free_from (fuel_for ex_cfgs ex_prog sched) (init ex_cfgs ex_prog) sched = true /\
+  finished (run ex_cfgs ex_prog sched) = true /\ s_warn (run ex_cfgs ex_prog sched) = 0%nat /\
+  length (filter (tid_eqb W) (trace ex_cfgs ex_prog sched)) = 38%nat.
 Proof. vm_compute. repeat split; reflexivity. Qed.
 
 (* ---- file formats: the readers invert the formatters ------------------------------------------------------------ *)
